@@ -275,6 +275,21 @@ def run(ctx, rep):
     # the handlers have to copy the value out before they look at it (shared rule with C01 / C02)
     from props import _viewread
     _viewread.run(F, rep, "C12.view-read")
+    operands_are_dependencies(F, rep)
+
+
+def operands_are_dependencies(F, rep, rule="C12.visit"):
+    """`(x) or y` yields the value of `y` when x is nil, `get x` the value of x: inside a function literal that outlives its creator the
+    names these operands mention have to be captured, which they are only if the dependency walk reads every code-bearing field of the
+    optional forms (Expr::NilEval, Expr::UnaryUnwrap).  The general walk check (C07.visit) is run and the obligations of those forms kept."""
+    import core
+    from props import _visit
+    tmp = core.Report("C12", rep.tier)
+    _visit.run(F, tmp, rule)
+    kept = [o for o in tmp.obligations if o["instance"].startswith(("Expr::NilEval", "Expr::UnaryUnwrap"))]
+    for o in kept:
+        rep.obligations.append(o)
+    rep.floor(rule + " code-bearing fields of the optional forms", len(kept), 3)
 
 
 def seqgen_show(seq):
